@@ -1,0 +1,17 @@
+//go:build verif
+
+package lexer
+
+// Contracts for the spec lexer, checked by /verif/bin/govc (comment-only file; compiles to nothing).
+
+//@ func Tokenize
+//@   loop 1 invariant bounds: 0 <= pos && pos <= eof && eof == len(usage)
+//@   loop 1 decreases eof - pos
+//@   loop 2 invariant bounds: 0 <= start && start < pos && pos <= eof && eof == len(usage)
+//@   loop 2 decreases eof - pos
+//@   loop 3 invariant bounds: 0 <= start && start < pos && pos0 <= pos && pos <= eof && eof == len(usage)
+//@   loop 3 decreases eof - pos
+//@   loop 4 invariant bounds: 0 <= start && start < pos && pos <= eof && eof == len(usage)
+//@   loop 4 decreases eof - pos
+//@   loop 5 invariant bounds: 0 <= start && start < pos && pos <= eof && eof == len(usage)
+//@   loop 5 decreases eof - pos
